@@ -75,8 +75,26 @@ def threshold_chain(ctx):
                 thr_store = n.value
     if floor_expr is None:
         raise AnalysisError("Solver.__init__ no longer derives self.floor")
+    env = {"threshold": T}
+    # the formula may live in a helper of the solver (`self.precision_digits(threshold)`, a static method): its single return
+    # expression with the arguments in place
+    for _ in range(2):
+        if isinstance(floor_expr, ast.Call) and isinstance(floor_expr.func, ast.Attribute) and isinstance(floor_expr.func.value, ast.Name) \
+                and floor_expr.func.value.id in ("self", init.cls.name if init.cls else "") and init.cls is not None:
+            h = prog.resolve_method(init.cls.name, floor_expr.func.attr)
+            body = [st for st in h.node.body if not (isinstance(st, ast.Expr) and isinstance(st.value, ast.Constant))] if h is not None else []
+            if len(body) == 1 and isinstance(body[0], ast.Return) and body[0].value is not None:
+                hp = [p_ for p_ in h.params if p_ not in ("self", "cls")]
+                if len(hp) == len(floor_expr.args) and not floor_expr.keywords:
+                    try:
+                        env = {p_: prog.const_eval(a_, init.mod, env=env) for p_, a_ in zip(hp, floor_expr.args)}
+                    except NotConst:
+                        break
+                    floor_expr = body[0].value
+                    continue
+        break
     try:
-        d = prog.const_eval(floor_expr, init.mod, env={"threshold": T})
+        d = prog.const_eval(floor_expr, init.mod, env=env)
     except NotConst as e:
         raise AnalysisError("self.floor expression `%s` does not fold: %s" % (src(floor_expr), e))
     out = dict(T=T, d=d, configurable=configurable, floor_src=src(floor_expr), thr_src=src(targ), thr_store=src(thr_store) if thr_store is not None else None,
@@ -163,6 +181,9 @@ def _call_sites_pass_floor(ctx, chk, rule, q, meths):
         chk.undecided(rule, f.where(), "expected call sites of %s in %s, found %d" % (meths, f.short, n))
 
 
+GETTERS = ("get_best_strategies_reachability", "get_worst_strategies_reachability", "get_best_strategies_total_rewards", "get_worst_strategies_total_rewards")
+
+
 def role_table(ctx, chk, rule, q, best, worst):
     """strategies = [None]*n; P1 -> best, P2 -> worst, stored at state.idx for the whole list."""
     f = ctx.func(q)
@@ -234,25 +255,63 @@ def role_table(ctx, chk, rule, q, best, worst):
             return None
         return subst(t, h)
     cases = {"Player 1": entry(best), "Player 2": entry(worst), "<any other owner>": acc}
+    rc = K.role_classes(ctx)
+    owner_class = {"Player 1": rc.get("max"), "Player 2": rc.get("min"), "<any other owner>": rc.get("avg")}
+
+    def poly(t, owner):
+        """`state.m(...)` where every node class has its own m (one method name, the class of the state picks the body): for a state
+        of this owner the call is the call of its class's m - another name of the spec method, a one-line forwarder to it, or a stub
+        that returns None."""
+        cn = owner_class.get(owner)
+
+        def g(x):
+            if x[0] == "mcall" and x[1] == st and x[2] not in (best, worst) and cn in ctx.prog.classes:
+                m = ctx.prog.resolve_method(cn, x[2])
+                if m is None:
+                    return None
+                if m.name != x[2] and m.name in (best, worst):
+                    return ("mcall", st, m.name, x[3], x[4])
+                body = [s_ for s_ in m.node.body if not (isinstance(s_, ast.Expr) and isinstance(s_.value, ast.Constant))]
+                if not body or all(isinstance(s_, ast.Pass) for s_ in body) or (len(body) == 1 and isinstance(body[0], ast.Return) and (
+                        body[0].value is None or (isinstance(body[0].value, ast.Constant) and body[0].value.value is None))):
+                    return C(None)
+                if len(body) == 1 and isinstance(body[0], ast.Return) and isinstance(body[0].value, ast.Call) and isinstance(body[0].value.func, ast.Attribute) \
+                        and isinstance(body[0].value.func.value, ast.Name) and body[0].value.func.value.id == "self" and not body[0].value.keywords:
+                    ps = [p_ for p_ in m.params if p_ != "self"]
+                    if [a_.id if isinstance(a_, ast.Name) else None for a_ in body[0].value.args] == ps and len(ps) == len(x[3]) and not x[4]:
+                        return ("mcall", st, body[0].value.func.attr, x[3], ())
+            # the spec methods return a list on every path: `is not None` of their result is settled
+            if x[0] == "cmp" and x[1] in ("isnot", "is", "!=", "==") and x[3] == C(None) and x[2][0] == "mcall" and x[2][1] == st and x[2][2] in (best, worst) \
+                    and cn in ctx.prog.classes and _never_none(ctx.prog.resolve_method(cn, x[2][2])):
+                return C(x[1] in ("isnot", "!="))
+            return None
+        for _ in range(3):
+            t2 = deep_simp(subst(t, g))
+            if t2 == t:
+                break
+            t = t2
+        return t
     same = True
     for owner, want in cases.items():
-        got = norm(deep_simp(subst(u, lambda x: C(owner) if x == pl else None)))
+        got = norm(poly(norm(deep_simp(subst(u, lambda x: C(owner) if x == pl else None))), owner))
         if got != want:
             same = False
+            import os
+            if os.environ.get("SA_DEBUG"): print("ROLE", owner, show(got), "WANT", show(want))
     if same and not any(t == pl for t in _sub(init)):
         chk.ok(rule, f.where(L.node), "Player 1 -> %s, Player 2 -> %s, any other owner -> None (case by case on state.player); stored at state.idx; whole state list" % (best, worst))
         return
     # a player state that gets the result of ANOTHER method of its node (the table of the other phase, the other player's getter)
     for owner, want in list(cases.items())[:2]:
-        got = norm(deep_simp(subst(u, lambda x: C(owner) if x == pl else None)))
+        got = norm(poly(norm(deep_simp(subst(u, lambda x: C(owner) if x == pl else None))), owner))
         if got[0] == "setitem" and got[1] == acc and got[2] == want[2] and got[3][0] == "mcall" and got[3][1] == st and got[3][2] != want[3][2] \
-                and any(got[3][2] in ctx.prog.classes[c_].methods for c_ in ctx.prog.classes):
+                and got[3][2] in GETTERS:
             chk.violation(rule, f.where(L.node), "a %s state is given `%s(...)`, specification: `%s(...)` - the reported strategy is read off another quantity / another player's rule" % (
                 owner, got[3][2], want[3][2]), expected=show(want), found=show(got)[:200], construct="%s wrong getter for %s" % (f.short, owner))
             return
     # a player state whose entry is, under some further condition, something else than what its node method returns
     for owner, want in list(cases.items())[:2]:
-        got = norm(deep_simp(subst(u, lambda x: C(owner) if x == pl else None)))
+        got = norm(poly(norm(deep_simp(subst(u, lambda x: C(owner) if x == pl else None))), owner))
         if got[0] == "ite" and want in (got[2], got[3]):
             other = got[3] if got[2] == want else got[2]
             if other[0] == "setitem" and other[1] == acc and other[3] != want[3] and not (other[3][0] == "mcall" and other[3][1] == st):
@@ -264,7 +323,7 @@ def role_table(ctx, chk, rule, q, best, worst):
     calls = [t for t in _sub(u) if t[0] == "mcall" and t[2] in (best, worst)]
     conds = [t for t in _sub(u) if t[0] == "cmp" and t[1] == "=="]
     swapped = simp(("ite", cond("Player 1"), entry(worst), simp(("ite", cond("Player 2"), entry(best), acc))))
-    if any(t[0] in ("res", "apply", "compr") or (t[0] == "acc" and t[1] != L.id) for t in _sub(u)):
+    if any(t[0] in ("res", "apply", "compr") or (t[0] == "acc" and t[1] != L.id) or (t[0] == "mcall" and t[1] == st and t[2] not in GETTERS) for t in _sub(u)):
         chk.undecided(rule, f.where(L.node), "the dispatch goes through a nested loop / table / function value that is not resolved: %s" % show(u)[:160])
     elif u == swapped:
         chk.violation(rule, f.where(L.node), "roles exchanged: Player 1 gets %s, Player 2 gets %s" % (worst, best),
@@ -277,6 +336,37 @@ def role_table(ctx, chk, rule, q, best, worst):
                       expected=show(want1), found=show(u), construct="%s role missing" % f.short)
     else:
         chk.undecided(rule, f.where(L.node), "dispatch loop update not recognised: %s" % show(u))
+
+
+def _never_none(m):
+    """Every exit of the method returns a list it built (a display, a comprehension, a local that only ever holds one)."""
+    if m is None:
+        return False
+    fn = m.node
+    lists = (ast.List, ast.ListComp)
+    holds = {}
+    for x in ast.walk(fn):
+        if isinstance(x, ast.Assign):
+            for t in x.targets:
+                for n in ast.walk(t):
+                    if isinstance(n, ast.Name):
+                        holds.setdefault(n.id, []).append(x.value if n is t else None)
+        elif isinstance(x, (ast.AugAssign, ast.AnnAssign, ast.For, ast.With, ast.NamedExpr)):
+            t = x.target if not isinstance(x, ast.With) else None
+            for n in ast.walk(t) if t is not None else ():
+                if isinstance(n, ast.Name):
+                    holds.setdefault(n.id, []).append(getattr(x, "value", None) if isinstance(x, ast.AnnAssign) and n is t else None)
+    rets = [x for x in ast.walk(fn) if isinstance(x, ast.Return)]
+    if not rets or not isinstance(fn.body[-1], ast.Return):
+        return False
+    for r in rets:
+        v = r.value
+        if isinstance(v, lists):
+            continue
+        if isinstance(v, ast.Name) and v.id not in m.params and holds.get(v.id) and all(isinstance(h, lists) for h in holds[v.id]):
+            continue
+        return False
+    return True
 
 
 def _sub(t):
